@@ -430,3 +430,34 @@ def run(chk: Check, eng: Engine) -> None:
                     keyparts=f"ctor-aliases|{kw.arg}")
     flush()
     chk.extra["effect_analysis"] = {"summaries": len(ea.summaries), "function_analyses": ea.n_analysed, "brackets": sorted(ea.dropped_brackets)}
+
+
+# ------------------------------------------------------------------ self-test variants
+from ..mutants import M  # noqa: E402
+
+_T = "src/fandango/language/tree.py"
+_MU = "src/fandango/evolution/mutation.py"
+_RB = "src/fandango/constraints/repetition_bounds.py"
+_S = "src/fandango/language/search.py"
+MUTANTS = [
+    M("slice-adopts-children", _T, "    def set_children(self, children: list[DerivationTree]) -> None:\n        # A slice is a view on nodes that belong to another tree: it lists the selected\n        # nodes but must not adopt them (their parent stays the node they were taken from).\n        self._children = children\n        self.invalidate_hash()\n",
+      "", "R10-a"),
+    M("find-direct-marks-readonly", _T, "    def find_direct_trees(self, symbol: NonTerminal) -> list[\"DerivationTree\"]:\n        return [",
+      "    def find_direct_trees(self, symbol: NonTerminal) -> list[\"DerivationTree\"]:\n        for child in self._children:\n            child.read_only = child.read_only or False\n        return [", "R10-a"),
+    M("flatten-detaches", _T, "        flat = [self]\n        for child in self._children:\n            flat.extend(child.flatten())\n        return flat",
+      "        flat = [self]\n        for child in self._children:\n            child._parent = self\n            flat.extend(child.flatten())\n        return flat", "R10-a"),
+    M("mutate-without-copy", _MU, "        ctx_tree = node_to_mutate.split_end()\n", "        ctx_tree = node_to_mutate.split_end(False)\n", "R10-b"),
+    M("insert-repetitions-no-restore", _RB, "        insert_children = tree.children\n        tree.set_children(old_tree_children)\n", "        insert_children = tree.children\n", "R10-b"),
+    M("replace-reuses-unchanged-child", _T, "            new_children.append(new_child)\n            if new_child != child:\n                regen_params = True\n",
+      "            if new_child != child:\n                regen_params = True\n                new_children.append(new_child)\n            else:\n                new_children.append(child)\n", "R10-b"),
+    M("add-child-no-invalidate", _T, "        self._children.append(child)\n        child._parent = self\n        self.invalidate_hash()\n", "        self._children.append(child)\n        child._parent = self\n", "R10-c"),
+    M("symbol-setter-no-invalidate", _T, "        self._symbol = symbol\n        self.invalidate_hash()\n", "        self._symbol = symbol\n", "R10-c"),
+    M("hash-ignores-recipient", _T, "                    self.sender,\n                    self.recipient,\n                    tuple(hash(child) for child in self._children),", "                    self.sender,\n                    tuple(hash(child) for child in self._children),", "R10-c"),
+    M("invalidate-stops-at-node", _T, "        if self._parent is not None:\n            self._parent.invalidate_hash()\n\n    @property\n    def sender", "        if self._parent is not None and update_size:\n            self._parent.invalidate_hash(update_size=False)\n\n    @property\n    def sender", "R10-c"),
+    M("deepcopy-shares-tags", _T, "            origin_repetitions=list(self.origin_repetitions),\n        )\n        memo[id(self)] = copied", "            origin_repetitions=self.origin_repetitions,\n        )\n        memo[id(self)] = copied", "R10-d"),
+    M("deepcopy-drops-readonly", _T, "            sources=[],\n            read_only=self.read_only,\n            origin_repetitions=list(self.origin_repetitions),\n        )\n        memo[id(self)] = copied", "            sources=[],\n            origin_repetitions=list(self.origin_repetitions),\n        )\n        memo[id(self)] = copied", "R10-d"),
+]
+TWINS = [
+    M("twin-getitem-local", _T, "        items = self._children.__getitem__(item)\n", "        kids = self._children\n        items = kids.__getitem__(item)\n", None),
+    M("twin-add-child-order", _T, "        self._children.append(child)\n        child._parent = self\n        self.invalidate_hash()\n", "        child._parent = self\n        self._children.append(child)\n        self.invalidate_hash()\n", None),
+]
